@@ -172,7 +172,16 @@ impl Check for C03 {
         }
         let pool = c01::program_pool(&both);
         let preds = c01::program_preds(&both);
-        let (h0, t) = g::build_interp(&case.raw, &preds, &[], &pool);
+        let (mut h0, mut t) = g::build_interp(&case.raw, &preds, &[], &pool);
+        // one pair in three is guided: the closure of one of the two programs over the random atoms, minus an atom
+        let selector: usize = case.raw.tuples.iter().flatten().flatten().map(|x| *x as usize).sum();
+        if selector % 3 == 0 {
+            let side = if (selector / 3) % 2 == 0 { &case.left } else { &case.right };
+            if let Some((gh, gt)) = asp_ref::guided_pair(side, &t, &preds, selector / 6) {
+                h0 = gh;
+                t = gt;
+            }
+        }
         let h = if case.break_subset {
             let (_, e) = g::build_interp(&case.extra, &preds, &[], &pool);
             union(&h0, &e)
